@@ -280,7 +280,14 @@ Error CodeHolder::reinit() noexcept {
   CodeHolder_reset_sections_and_containers(this, ResetPolicy::kSoft);
 
   // Create a default section and insert it to the `_sections` array.
-  (void)CodeHolder_init_section_storage(this);
+  Error err = CodeHolder_init_section_storage(this);
+  if (ASMJIT_UNLIKELY(err != Error::kOk)) {
+    // Without the section storage the holder is unusable - leave it uninitialized (the same state as after `reset()`).
+    CodeHolder_detach_emitters(this);
+    CodeHolder_reset_env_and_attached_logger_and_eh(this);
+    CodeHolder_reset_sections_and_containers(this, ResetPolicy::kSoft);
+    return make_error(Error::kOutOfMemory);
+  }
   CodeHolder_add_text_section(this);
 
   BaseEmitter* emitter = _attached_first;
